@@ -573,3 +573,275 @@ def r12_4(ctx):
                 ctx.ob("alpha_beta_search:first-move-searched-first", len(first) == 1 and b.node_dominates(first[0], h), b.where(b.term_loc(first[0])) if first else b.file,
                        "moves[0] is searched with the full window before the loop over the rest")
     ctx.floor("searching loops over move lists", n, 3)
+
+
+def _lin_locals(e):
+    """linear form with terms keyed by the local they are rooted in (versions ignored)."""
+    le = linear(e)
+    if le is None:
+        return None
+    out = {}
+    for t, c in le[0].items():
+        t0 = strip_refs(t)
+        key = ("local", t0[1]) if t0[0] in ("var", "arg") else t0
+        out[key] = out.get(key, 0) + c
+    return (out, le[1])
+
+
+def _named_i32(b):
+    return {l for l in b.names if b.local_ty(l) == "i32"}
+
+
+def r12_2(ctx):
+    """Child window polarity: a child is searched with (-hi, -lo) where (lo, hi) is (alpha, beta),
+    (alpha, alpha+1) or (beta-1, beta); the leaf hand-over keeps (alpha, beta)."""
+    f = ctx.facts
+    pos_inf = f.const_value("engine::POS_INF")
+    n = 0
+    for fn in (GBM, ABS, QUIESCE):
+        b = f.body(fn)
+        ctx.note_fn(fn)
+        ex = Exprs(b, keep=_named_i32(b))
+        bps = params_by_type(b, "&board::BoardState")
+        # alpha / beta of this node: i32 parameters in declaration order (alpha, beta) for the search
+        # functions; in the root driver: the locals named by the window it builds
+        i32p = params_by_type(b, "i32")
+        if fn == ABS:
+            ply, alpha, beta = i32p[0], i32p[1], i32p[2]
+        elif fn == QUIESCE:
+            alpha, beta = i32p[0], i32p[1]
+        else:
+            alpha = beta = None
+        k = 0
+        for bb, t in sorted(b.iter_calls()):
+            c = callee_of(t)
+            if c not in (ABS, QUIESCE):
+                continue
+            k += 1
+            n += 1
+            cb = f.body(c)
+            ci32 = params_by_type(cb, "i32")
+            apos, bpos = (ci32[1] - 1, ci32[2] - 1) if c == ABS else (ci32[0] - 1, ci32[1] - 1)
+            args = ex.call_args(bb)
+            board_arg = strip_refs(args[one_param(cb, "&board::BoardState") - 1])
+            same_node = board_arg[0] == "arg" and board_arg[1] in bps
+            la, lb = _lin_locals(args[apos]), _lin_locals(args[bpos])
+            key = "%s:call#%d(%s):window" % (fn.split("::")[-1], k, c.split("::")[-1])
+            loc = b.term_loc(bb)
+            if la is None or lb is None:
+                ctx.ob(key, False, b.where(loc), "window arguments are not affine in alpha/beta", reason="shape-not-recognised")
+                continue
+            if fn == GBM:
+                # root: (-beta, -alpha) with beta the constant +infinity and alpha the running best
+                def is_inf_local(form):
+                    if form == ({}, -pos_inf):
+                        return True
+                    if form[1] != 0 or list(form[0].values()) != [-1]:
+                        return False
+                    k0 = next(iter(form[0]))
+                    if k0[0] != "local":
+                        return False
+                    ds = [(dl, kd) for dl, kd in b.reaching().all_sites(k0[1])]
+                    return bool(ds) and all(kd == "whole" and Exprs(b).rvalue(b.stmts(dl[0])[dl[1]]["rv"], dl) == ("const", pos_inf) for dl, kd in ds)
+                ok = is_inf_local(la) and lb[1] == 0 and list(lb[0].values()) == [-1] and not is_inf_local(lb)
+                ctx.ob(key, ok, b.where(loc), "root searches each move with (-inf, -alpha): (%s, %s)" % (show_expr(args[apos], b), show_expr(args[bpos], b)))
+                continue
+            A, B = ("local", alpha), ("local", beta)
+            if same_node:
+                ok = la == ({A: 1}, 0) and lb == ({B: 1}, 0)
+                ctx.ob(key, ok, b.where(loc), "the leaf hand-over keeps the window (alpha, beta): (%s, %s)" % (show_expr(args[apos], b), show_expr(args[bpos], b)))
+                continue
+            # child window (a', b') = (-hi, -lo)
+            hi = ({t: -c for t, c in la[0].items()}, -la[1])
+            lo = ({t: -c for t, c in lb[0].items()}, -lb[1])
+            full = lo == ({A: 1}, 0) and hi == ({B: 1}, 0)
+            zero = lo == ({A: 1}, 0) and hi == ({A: 1}, 1)
+            nullw = lo == ({B: 1}, -1) and hi == ({B: 1}, 0)
+            kind = "full" if full else "zero-window on alpha" if zero else "zero-window on beta" if nullw else None
+            ctx.ob(key, kind is not None, b.where(loc),
+                   "child searched with (%s, %s) = (-hi, -lo) for (lo, hi) = %s" % (show_expr(args[apos], b), show_expr(args[bpos], b),
+                                                                                  kind or "NONE of (alpha,beta), (alpha,alpha+1), (beta-1,beta): the child's window is not the negated window of this node"))
+    ctx.floor("recursive search calls", n, 7)
+
+
+def _cmp_facts(b, ex, bb):
+    """[(op, lhs_local_or_expr, rhs_local_or_expr)] of comparisons known true on entry to bb."""
+    out = []
+    for d, vals, excl, s, tg in dominating_facts(b, ex, bb):
+        truth = True if ((vals is None and excl == [0]) or vals == [1]) else (False if vals == [0] else None)
+        if truth is None or d[0] != "bin" or d[1] not in ("Gt", "Ge", "Lt", "Le"):
+            continue
+        op = d[1] if truth else {"Gt": "Le", "Ge": "Lt", "Lt": "Ge", "Le": "Gt"}[d[1]]
+        a, c = strip_refs(d[2]), strip_refs(d[3])
+        ka = ("local", a[1]) if a[0] in ("var", "arg") else a
+        kc = ("local", c[1]) if c[0] in ("var", "arg") else c
+        if op in ("Lt", "Le"):
+            op = {"Lt": "Gt", "Le": "Ge"}[op]
+            ka, kc = kc, ka
+        out.append((op, ka, kc))
+    return out
+
+
+def r12_3(ctx):
+    """Order-valid guards: an early return during/after the search of the moves needs score >= beta;
+    alpha is raised only by a strictly better score; best_score only by a strictly better score;
+    the re-search needs alpha < score < beta; after the loop the best score is returned."""
+    f = ctx.facts
+    for fn in (ABS, QUIESCE):
+        b = f.body(fn)
+        ctx.note_fn(fn)
+        ex = Exprs(b, keep=_named_i32(b))
+        i32p = params_by_type(b, "i32")
+        alpha, beta = (i32p[1], i32p[2]) if fn == ABS else (i32p[0], i32p[1])
+        A, B = ("local", alpha), ("local", beta)
+        short = fn.split("::")[-1]
+        bps = params_by_type(b, "&board::BoardState")
+        child = []
+        for bb, t in b.iter_calls():
+            if callee_of(t) in (ABS, QUIESCE):
+                cb = f.body(callee_of(t))
+                ba = strip_refs(ex.call_args(bb)[one_param(cb, "&board::BoardState") - 1])
+                if not (ba[0] == "arg" and ba[1] in bps):
+                    # exclude the null move (its cut-off rule is `eval >= beta` too, handled like the others)
+                    child.append(bb)
+        if not child:
+            raise ShapeNotRecognised("%s: no child searches" % fn)
+        loops = b.loops()
+        search_loops = [body_ for h, body_ in loops.items() if any(c in body_ for c in child)]
+        # exit edges of the searching loops (iterator exhausted): a return dominated by all of them
+        # comes after every move was searched
+        exit_edges = []
+        for body_ in search_loops:
+            for x in body_:
+                if b.term(x)["k"] == "switch":
+                    d = ex.switch_discr(x)
+                    if d[0] == "discr" and d[1][0] == "call" and d[1][1].endswith("::next"):
+                        for v, tg in b.term(x)["cases"]:
+                            if v == 0 and tg not in body_:
+                                exit_edges.append((x, tg))
+
+        def after_all_moves(bb):
+            return bool(exit_edges) and all(b.edge_dominates(e, bb) or e[1] == bb for e in exit_edges)
+        # static evaluation / stand-pat in quiesce counts as a "score" source too
+        n = 0
+        final = None
+        for loc, st in b.iter_stmts():
+            if not (st["k"] == "assign" and st["place"]["local"] == 0 and not st["place"]["proj"]):
+                continue
+            after = [c for c in child if b.node_dominates(c, loc[0])]
+            e = strip_refs(ex.rvalue(st["rv"], loc))
+            in_loop = not after_all_moves(loc[0])
+            facts_ = _cmp_facts(b, ex, loc[0])
+            if fn == QUIESCE:
+                scores = [x for x in facts_ if x[0] == "Ge" and x[2] == B]
+                if e[0] in ("var", "arg") and e[1] == alpha and not in_loop and not scores:
+                    final = loc
+                    continue
+                n += 1
+                ok = bool(scores) and e[0] in ("var", "arg") and (e[1] == beta or ("local", e[1]) in [s[1] for s in scores])
+                ctx.ob("%s:cut-off-return#%d" % (short, n), ok, b.where(loc),
+                       "returns `%s` early: needs a value >= beta on this path (facts: %s)" % (show_expr(e, b), [(o, _n(b, x), _n(b, y)) for o, x, y in facts_]))
+                continue
+            if not after:
+                continue     # returns before any child search: classified by R12.5 / R11.1 / R7.2
+            ek = ("local", e[1]) if e[0] in ("var", "arg") else e
+            cut = any(o == "Ge" and y == B and (x == ek or ek == B) for o, x, y in facts_)
+            if cut:
+                n += 1
+                ctx.ob("%s:cut-off-return#%d" % (short, n), True, b.where(loc), "returns `%s` under `%s >= beta`" % (show_expr(e, b), show_expr(e, b)))
+                continue
+            if in_loop:
+                n += 1
+                ctx.ob("%s:cut-off-return#%d" % (short, n), False, b.where(loc),
+                       "returns `%s` while moves remain to be searched, without a value >= beta on this path: the result is not the minimax value (facts: %s)" % (
+                           show_expr(e, b), [(o, _n(b, x), _n(b, y)) for o, x, y in facts_]))
+            else:
+                final = loc
+                fe = e
+        if fn == ABS:
+            okf = final is not None and fe[0] == "var" and b.lname(fe[1]) != b.lname(alpha)
+            # the value returned after the loop is the running best score: the local raised under score > best
+            ctx.ob("%s:final-return" % short, final is not None, b.where(final) if final else b.file, "after all moves the running best score is returned")
+        else:
+            ctx.ob("%s:final-return" % short, final is not None, b.where(final) if final else b.file, "after all captures alpha is returned")
+        ctx.floor("%s cut-off returns" % short, n, 2)
+        # raises: X = Y with a guard Gt(Y, X)
+        nr = 0
+        for loc, st in b.iter_stmts():
+            if st["k"] != "assign" or st["place"]["proj"]:
+                continue
+            l = st["place"]["local"]
+            if l not in b.names or b.local_ty(l) != "i32":
+                continue
+            e = strip_refs(ex.rvalue(st["rv"], loc))
+            if e[0] not in ("var", "arg") or e[1] == l:
+                continue
+            src = ("local", e[1])
+            if not any(b.node_dominates(c, loc[0]) for c in child) and fn == ABS:
+                continue
+            if e[1] not in b.names and e[0] == "var":
+                pass
+            nr += 1
+            facts_ = _cmp_facts(b, ex, loc[0])
+            ok = any(o == "Gt" and x == src and y == ("local", l) for o, x, y in facts_)
+            ctx.ob("%s:raise:%s=%s#%d" % (short, b.lname(l), b.lname(e[1]), nr), ok, b.where(loc),
+                   "`%s = %s` must be guarded by `%s > %s` (strict)" % (b.lname(l), b.lname(e[1]), b.lname(e[1]), b.lname(l)))
+        ctx.floor("%s raises" % short, nr, 2)
+        if fn == ABS:
+            # re-search: the second search of the same move is guarded by alpha < score < beta and uses the full window
+            byarg = {}
+            for c in child:
+                a = strip_refs(ex.call_args(c)[one_param(f.body(ABS), "&board::BoardState") - 1])
+                byarg.setdefault(a, []).append(c)
+            res = [sorted(v) for v in byarg.values() if len(v) == 2]
+            ctx.ob("%s:re-search-present" % short, len(res) == 1, b.file, "moves searched twice (zero window, then re-search): %d" % len(res))
+            for first, second in res:
+                if not b.node_dominates(first, second):
+                    first, second = second, first
+                facts_ = _cmp_facts(b, ex, second)
+                sc = None
+                dest = b.term(first)["dest"]["local"]
+                gt = [x for o, x, y in facts_ if o == "Gt" and y == A]
+                lt = [y for o, x, y in facts_ if o == "Gt" and x == B]
+                ok = bool(gt) and bool(lt) and set(gt) & set(lt)
+                ctx.ob("%s:re-search-guard" % short, bool(ok), b.where(b.term_loc(second)),
+                       "the re-search happens only when alpha < score < beta (facts: %s)" % [(o, _n(b, x), _n(b, y)) for o, x, y in facts_])
+
+
+def _n(b, k):
+    if isinstance(k, tuple) and k and k[0] == "local":
+        return b.lname(k[1])
+    return show_expr(k, b)[:30] if isinstance(k, tuple) else str(k)
+
+
+def r11_2(ctx):
+    """Mate-distance clamps and the ordering of the special scores."""
+    f = ctx.facts
+    mate = f.const_value("engine::MATE_SCORE")
+    pos_inf = f.const_value("engine::POS_INF")
+    neg_inf = f.const_value("engine::NEG_INF")
+    ctx.ob("constants:POS_INF>MATE_SCORE", pos_inf > mate > 0 and neg_inf == -pos_inf, "src/engine.rs", "POS_INF=%d, NEG_INF=%d, MATE_SCORE=%d" % (pos_inf, neg_inf, mate))
+    b = f.body(ABS)
+    ctx.note_fn(ABS)
+    ex = Exprs(b)
+    i32p = params_by_type(b, "i32")
+    ply, alpha, beta = i32p
+    found = {}
+    for bb, t in b.iter_calls():
+        c = callee_of(t) or ""
+        if c in ("std::cmp::max", "std::cmp::min"):
+            a = ex.call_args(bb)
+            la, lb = _lin_locals(a[0]), _lin_locals(a[1])
+            found[c.split("::")[-1]] = (la, lb, b.term_loc(bb), t["dest"]["local"])
+    mx = found.get("max")
+    ok = False
+    if mx:
+        forms = [mx[0], mx[1]]
+        ok = ({("local", alpha): 1}, 0) in forms and ({("local", ply): 1}, -mate) in forms
+    ctx.ob("alpha_beta_search:mate-distance:alpha", ok, b.where(mx[2]) if mx else b.file, "alpha = max(alpha, ply - MATE_SCORE): the worst that can happen to this node is being mated right here")
+    mn = found.get("min")
+    ok = False
+    if mn:
+        forms = [mn[0], mn[1]]
+        ok = ({("local", beta): 1}, 0) in forms and ({("local", ply): -1}, mate) in forms
+    ctx.ob("alpha_beta_search:mate-distance:beta", ok, b.where(mn[2]) if mn else b.file, "beta = min(beta, MATE_SCORE - ply)")
